@@ -790,7 +790,7 @@ def check_C20(chk):
     for threads, calls in configs:
         nthreads = threads.count(",") + 1
         res = vlib.run_tlc(chk.work, "MC_TempName_%d_%d" % (nthreads, calls), "TempName",
-                           "CONSTANTS\n Threads = %s\n Calls = %d\n MaxAttempts = %d\n Program <- ProgDef\nSPECIFICATION Spec\nVIEW View\nINVARIANT Unique\nINVARIANT Sane\nCHECK_DEADLOCK FALSE\n" % (threads, calls, attempts),
+                           "CONSTANTS\n Threads = %s\n Calls = %d\n MaxAttempts = %d\n Program <- ProgDef\nSPECIFICATION Spec\nVIEW View\nINVARIANT Unique\nCHECK_DEADLOCK FALSE\n" % (threads, calls, attempts),
                            defs=progdef, workers=16, timeout=1800)
         chk.add_tlc(res, "MC TempName: all interleavings of %d threads x %d calls of the extracted program %s" % (nthreads, calls, prog))
         if res.violation:
